@@ -19,7 +19,7 @@ static int documented(long rc){
 int main(int argc,char **argv){
   FILE *f=fopen(argv[1],"r"); char *line;
   if(!f)return 2;
-  signal(SIGALRM,on_alarm);
+  vc_watch_init(on_alarm);
   while((line=vc_getline(f))){
     char id[64]; int seekable; long maxread,seed,nops; char *hex;
     char *t=strtok(line," "); if(!t||strcmp(t,"case")){ free(line); continue; }
@@ -28,7 +28,7 @@ int main(int argc,char **argv){
     /* exact-size copy: reads beyond the data are heap overflows ASan sees */
     unsigned char *file=malloc(n?n:1); memcpy(file,file0,n); free(file0);
     printf("case %s\n",id); vc_rng_s=(uint64_t)seed; int bad=0;
-    snprintf(g_where,sizeof g_where,"case %s open",id); alarm(20);
+    snprintf(g_where,sizeof g_where,"case %s open",id); vc_watch(20);
     memsrc ms={0}; ms.b=file; ms.n=n; ms.seekable=seekable; ms.maxread=maxread;
     OggVorbis_File vf; ov_callbacks cb={ms_read,seekable?ms_seek:NULL,ms_close,seekable?ms_tell:NULL};
     int orc=ov_open_callbacks(&ms,&vf,NULL,0,cb);
@@ -44,7 +44,7 @@ int main(int argc,char **argv){
         uint64_t r=vc_rng(); int op=(int)(r%26); long a=(long)((r>>8)%200000)-20; long rc=0; float **p; int bs; char buf[4096];
         long tot=seekable?(long)ov_pcm_total(&vf,-1):100000; if(tot<1)tot=1;
         long posarg=((r>>40)&3)==0?a:(long)((r>>16)%(tot+3))-1;
-        snprintf(g_where,sizeof g_where,"case %s op#%ld kind %d arg %ld",id,i,op,posarg); alarm(20);
+        snprintf(g_where,sizeof g_where,"case %s op#%ld kind %d arg %ld",id,i,op,posarg); vc_watch(20);
         if(getenv("VERIF_DEBUG")){ printf("dbg %s rs=%d cl=%d pcm=%ld\n",g_where,vf.ready_state,vf.current_link,(long)vf.pcm_offset); fflush(stdout); }
         if(getenv("VERIF_DEBUG")){ printf("dbg vd: ret=%d cur=%d cW=%ld lW=%ld W=%ld nW=%ld\n",vf.vd.pcm_returned,vf.vd.pcm_current,(long)vf.vd.centerW,vf.vd.lW,vf.vd.W,vf.vd.nW); fflush(stdout); }
         switch(op){
@@ -79,12 +79,12 @@ int main(int argc,char **argv){
       }
       if(have2)ov_clear(&vf2);
     }
-    alarm(20); snprintf(g_where,sizeof g_where,"case %s clear",id);
+    vc_watch(20); snprintf(g_where,sizeof g_where,"case %s clear",id);
     ov_clear(&vf);
     if(orc==0&&ms.closes!=1){ printf("prop closeonce FAIL closes=%ld\n",ms.closes); bad++; }
     if(orc!=0&&ms.closes!=0){ printf("prop noclose FAIL ov_clear after a failed open closed the source\n"); bad++; }
     ov_clear(&vf);   /* repeating the clear is harmless */
-    alarm(0);
+    vc_watch(0);
     if(!bad)printf("prop safe ok\n");
     free(file); free(line);
   }
